@@ -41,10 +41,11 @@ Record vgenesis := {
   g_last : list (N * Z);          (* LastValidatorPowers (used only when exported) *)
 }.
 
-(* ValidateGenesis: no consensus key twice, not more validators than MaxValidators (repair D6),
-   Params.Validate.  (It does NOT look at operator addresses or powers.) *)
+(* ValidateGenesis: no consensus key twice, no operator address twice (repair 14a7cf8), not
+   more validators than MaxValidators (repair D6), Params.Validate.  (It does NOT look at powers.) *)
 Definition validate_genesis (g : vgenesis) : bool :=
   bool_decide (NoDup (map (λ x, x.1.2) (g_vals g))) &&
+  bool_decide (NoDup (map (λ x, x.1.1) (g_vals g))) &&
   bool_decide (N.of_nat (length (g_vals g)) ≤ g_maxv g)%N &&
   negb (bool_decide (g_maxv g = 0%N)).
 
